@@ -10,6 +10,7 @@ import (
 	"go/constant"
 	"go/token"
 	"go/types"
+	"os"
 	"sort"
 	"strings"
 
@@ -238,6 +239,44 @@ func c14FieldsReadAST(nodes []ast.Node, info *types.Info) map[*types.Var]bool {
 			return true
 		})
 	}
+	return out
+}
+
+// c14BodiesWithHelpers: the body of fd and the bodies of the unexported functions of
+// the same package it calls (transitively, depth ≤ 2, like scopeFuncs): what a function
+// "reads" does not depend on whether part of its body was extracted into a helper.
+func c14BodiesWithHelpers(p *Prog, fd *ast.FuncDecl, pk *packages.Package) []ast.Node {
+	if fd == nil || fd.Body == nil || pk == nil {
+		return nil
+	}
+	self, _ := pk.TypesInfo.Defs[fd.Name].(*types.Func)
+	seen := map[*ast.FuncDecl]bool{fd: true}
+	out := []ast.Node{fd.Body}
+	var add func(body *ast.BlockStmt, depth int)
+	add = func(body *ast.BlockStmt, depth int) {
+		if depth >= 2 {
+			return
+		}
+		ast.Inspect(body, func(n ast.Node) bool {
+			call, ok := n.(*ast.CallExpr)
+			if !ok {
+				return true
+			}
+			fo := c14CalleeOf(call, pk.TypesInfo)
+			if fo == nil || fo == self || fo.Pkg() == nil || fo.Pkg() != pk.Types || token.IsExported(fo.Name()) {
+				return true
+			}
+			hd := p.astFuncs[fo.Origin()]
+			if hd == nil || hd.Body == nil || seen[hd] || p.astPkgOf[hd] != pk {
+				return true
+			}
+			seen[hd] = true
+			out = append(out, hd.Body)
+			add(hd.Body, depth+1)
+			return true
+		})
+	}
+	add(fd.Body, 0)
 	return out
 }
 
@@ -743,10 +782,58 @@ func c14ResolveBool(v ssa.Value, predOf map[*ssa.BasicBlock]*ssa.BasicBlock) (va
 }
 
 func c14AcceptPaths(fn *ssa.Function, idx int, accept Pat, also func(*ssa.Return) bool) (paths []c14Path, complete bool) {
+	return c14AcceptPathsMode(fn, idx, accept, also, false)
+}
+
+// c14NeverNil: a value that cannot be nil — a package-level variable read as a value (the
+// error sentinels; the same reading as c07WalkSpec.GlobalsNonNil), a fresh allocation, a
+// non-pointer value boxed into an interface, errors.New / fmt.Errorf.
+func c14NeverNil(v ssa.Value, d int) bool {
+	if d > 4 {
+		return false
+	}
+	switch x := v.(type) {
+	case *ssa.UnOp:
+		_, isGlobal := x.X.(*ssa.Global)
+		return x.Op == token.MUL && isGlobal
+	case *ssa.Alloc:
+		return true
+	case *ssa.MakeInterface:
+		if _, isPtr := x.X.Type().Underlying().(*types.Pointer); isPtr {
+			return c14NeverNil(x.X, d+1)
+		}
+		switch x.X.Type().Underlying().(type) {
+		case *types.Basic, *types.Struct, *types.Array:
+			return true
+		}
+		return false
+	case *ssa.ChangeInterface:
+		return c14NeverNil(x.X, d+1)
+	case *ssa.Call:
+		if sf := x.Call.StaticCallee(); sf != nil && sf.Pkg != nil {
+			switch sf.Pkg.Pkg.Path() + "." + sf.Name() {
+			case "errors.New", "fmt.Errorf":
+				return true
+			}
+		}
+	}
+	return false
+}
+
+// c14AcceptPathsMode: strict (used for helper summaries) also counts as accepting every
+// return whose value is not known to be refusing — a non-constant result that is neither
+// fixed by the facts of the path nor never nil.
+func c14AcceptPathsMode(fn *ssa.Function, idx int, accept Pat, also func(*ssa.Return) bool, strict bool) (paths []c14Path, complete bool) {
 	if fn == nil || len(fn.Blocks) == 0 {
 		return nil, true
 	}
 	acceptsTrue := accept(&Expr{K: EConst, Val: constant.MakeBool(true)})
+	acceptsFalse := accept(&Expr{K: EConst, Val: constant.MakeBool(false)})
+	acceptsNil := accept(&Expr{K: EConst, IsNil: true})
+	isBoolType := func(t types.Type) bool {
+		bt, ok := t.Underlying().(*types.Basic)
+		return ok && bt.Info()&types.IsBoolean != 0
+	}
 	type state struct {
 		b      *ssa.BasicBlock
 		predOf map[*ssa.BasicBlock]*ssa.BasicBlock
@@ -798,15 +885,42 @@ func c14AcceptPaths(fn *ssa.Function, idx int, accept Pat, also func(*ssa.Return
 				}
 				return
 			}
-			if bt, ok := rv.Type().Underlying().(*types.Basic); ok && bt.Info()&types.IsBoolean != 0 && acceptsTrue {
+			// the verdict of an unexported same-package helper handed on as it is
+			// (`return check(x)`, or `return err` with err := check(x)): the exit accepts
+			// exactly when the helper's result is nil.  Unless a fact of this path already
+			// fixes that result to non-nil (the `err != nil` branch), the path accepts under
+			// the additional fact "the helper returned nil", which c14PathCrosses decides
+			// from the helper's own returns (summary, parameters replaced by the arguments).
+			if acceptsNil && !isBoolType(rv.Type()) {
+				d := Desc(rv)
+				fixed, truthy := c14FixedByFacts(d, st.facts)
+				_, _, _, _, isHelper := helperResultEdge(fn, d)
+				switch {
+				case fixed && truthy:
+					// non-nil on this path
+				case fixed:
+					paths = append(paths, c14Path{Facts: st.facts, Instrs: st.calls, Ret: t, Trail: st.trail})
+				case isHelper:
+					f := append(st.facts[:len(st.facts):len(st.facts)], c14Fact{Cond: d, Truth: false})
+					paths = append(paths, c14Path{Facts: f, Instrs: st.calls, Ret: t, Trail: st.trail})
+				case strict && !c14NeverNil(rv, 0):
+					paths = append(paths, c14Path{Facts: st.facts, Instrs: st.calls, Ret: t, Trail: st.trail})
+				}
+				return
+			}
+			if isBoolType(rv.Type()) && (acceptsTrue || acceptsFalse) {
 				v, neg := c14ResolveBool(rv, st.predOf)
 				if k, ok := v.(*ssa.Const); ok && k.Value != nil && k.Value.Kind() == constant.Bool {
-					if constant.BoolVal(k.Value) != neg {
+					if val := constant.BoolVal(k.Value) != neg; (val && acceptsTrue) || (!val && acceptsFalse) {
 						paths = append(paths, c14Path{Facts: st.facts, Instrs: st.calls, Ret: t, Trail: st.trail})
 					}
 					return
 				}
-				f := append(st.facts[:len(st.facts):len(st.facts)], c14Fact{Cond: Desc(v), Truth: !neg})
+				truth := !neg // the value v has when the result is true
+				if !acceptsTrue {
+					truth = neg
+				}
+				f := append(st.facts[:len(st.facts):len(st.facts)], c14Fact{Cond: Desc(v), Truth: truth})
 				paths = append(paths, c14Path{Facts: f, Instrs: st.calls, Ret: t, Trail: st.trail})
 			}
 		case *ssa.Jump:
@@ -830,13 +944,72 @@ func c14AcceptPaths(fn *ssa.Function, idx int, accept Pat, also func(*ssa.Return
 	return paths, budget > 0
 }
 
+// c14FixedByFacts: do the facts of a path fix the truthiness (true / non-nil) of the
+// value described by d?  (`err != nil` held on the way ⇒ err is non-nil here.)
+func c14FixedByFacts(d *Expr, facts []c14Fact) (fixed, truthy bool) {
+	d = strip(d)
+	if d == nil {
+		return false, false
+	}
+	ds := d.String()
+	for _, f := range facts {
+		a, pol := Truthy(f.Cond)
+		a = strip(a)
+		if a == nil {
+			continue
+		}
+		if (d.V != nil && a.V == d.V) || a.String() == ds {
+			return true, pol == f.Truth
+		}
+	}
+	return false, false
+}
+
 // c14PathCrosses: does the accepting path satisfy one of bars?
+//
+// A fact about the verdict of an unexported same-package helper (`if err :=
+// check(k, sig); err != nil { return err }`, `return check(sig, rrset)`, `if
+// !allowed(x) { return false }`) satisfies a guard when every exit of the helper that
+// yields that verdict satisfies it (c14HelperImplies: the same path enumeration, applied
+// to the helper, its conditions read with the parameters replaced by the call's
+// arguments).  A call to a helper that crosses the guard on every entry→return path
+// counts as executing it.
 func c14PathCrosses(p c14Path, bars []Barrier) bool {
+	return c14PathCrossesAct(p, bars, nil, 0)
+}
+
+func c14PathCrossesAct(p c14Path, bars []Barrier, args []*Expr, depth int) bool {
+	var fn *ssa.Function
+	if p.Ret != nil {
+		fn = p.Ret.Parent()
+	}
+	callArgs := func(cc *ssa.CallCommon) []*Expr {
+		out := make([]*Expr, len(cc.Args))
+		for i, a := range cc.Args {
+			out[i] = inActivation(Desc(a), args)
+		}
+		return out
+	}
 	for _, b := range bars {
 		if b.Edge != nil {
 			for _, f := range p.Facts {
-				if m, which := b.Edge(f.Cond); m && (which == 0) == f.Truth {
+				if m, which := b.Edge(inActivation(f.Cond, args)); m && (which == 0) == f.Truth {
 					return true
+				}
+			}
+			if fn != nil {
+				for _, f := range p.Facts {
+					h, idx, truthySucc, cl, ok := helperResultEdge(fn, f.Cond)
+					if !ok {
+						continue
+					}
+					succ := 1
+					if f.Truth {
+						succ = 0
+					}
+					if c14HelperImplies(h, idx, succ == truthySucc, b, callArgs(&cl.Call), depth) {
+						return true
+					}
 				}
 			}
 		}
@@ -847,8 +1020,51 @@ func c14PathCrosses(p c14Path, bars []Barrier) bool {
 				}
 			}
 		}
+		if fn != nil {
+			for _, in := range p.Instrs {
+				if cl, ok := in.(*ssa.Call); ok {
+					if h := localHelper(fn, &cl.Call); h != nil {
+						hc := &helperCtx{always: map[helperKey]int{}, implies: map[helperKey]int{}, act: map[*ssa.Function][]*Expr{}}
+						if hc.alwaysCrosses(h, []Barrier{b}, callArgs(&cl.Call)) {
+							return true
+						}
+					}
+				}
+			}
+		}
 	}
 	return false
+}
+
+// c14HelperImplies: result #idx of helper h has the given truthiness (true / non-nil)
+// only on exits that satisfy b.  Decided for "nil" and for boolean verdicts; an exit
+// whose value is unknown counts as yielding the verdict (strict enumeration).
+func c14HelperImplies(h *ssa.Function, idx int, truthy bool, b Barrier, args []*Expr, depth int) bool {
+	if h == nil || depth >= 3 || h.Signature.Results().Len() <= idx {
+		return false
+	}
+	var accept Pat
+	rt := h.Signature.Results().At(idx).Type()
+	if bt, ok := rt.Underlying().(*types.Basic); ok && bt.Info()&types.IsBoolean != 0 {
+		accept = IsConstBool(truthy)
+	} else if !truthy {
+		accept = IsNilConst
+	} else {
+		return false
+	}
+	paths, complete := c14AcceptPathsMode(h, idx, accept, nil, true)
+	if !complete {
+		return false
+	}
+	for _, p := range paths {
+		if !c14PathCrossesAct(p, []Barrier{b}, args, depth+1) {
+			return false
+		}
+	}
+	if os.Getenv("SDNSVERIF_DEBUG_HELPER") != "" {
+		fmt.Fprintf(os.Stderr, "DEBUG c14HelperImplies %s idx=%d truthy=%v paths=%d guard=%s\n", h.Name(), idx, truthy, len(paths), b.Name)
+	}
+	return true
 }
 
 // c14MustCrossAccept: every accepting exit of fn (result #idx matching accept,
